@@ -291,15 +291,101 @@ def _hoisted(project, fn, expr):
     return None
 
 
-def containers_of_kind(project, fn, var, kind, universe=_flat_names) -> set:
-    """Flat-container names function `fn` (a view) can choose for an entity `var` of class `kind`:
+def entity_cursors(F, var) -> list:
+    """`var` and the locals that stand for "the entity being handled": bound only from `var`, from another cursor or from
+    `<cursor>.parent` (a tail recursion on entity.parent turned into a loop that walks `child = child.parent`), and bound
+    from a cursor itself at least once."""
+    binds: dict = {}
+    other = set()
+    for n in ast.walk(F.node):
+        if isinstance(n, (ast.Assign, ast.AnnAssign)) and n.value is not None:
+            for t in (n.targets if isinstance(n, ast.Assign) else [n.target]):
+                if isinstance(t, ast.Name):
+                    binds.setdefault(t.id, []).append(n.value)
+                else:
+                    other |= {y.id for y in ast.walk(t) if isinstance(y, ast.Name) and isinstance(y.ctx, ast.Store)}
+        elif isinstance(n, (ast.For, ast.comprehension)):
+            other |= {y.id for y in ast.walk(n.target) if isinstance(y, ast.Name)}
+        elif isinstance(n, (ast.AugAssign, ast.NamedExpr)):
+            other |= {y.id for y in ast.walk(n.target) if isinstance(y, ast.Name)}
+        elif isinstance(n, ast.With):
+            other |= {y.id for it in n.items if it.optional_vars is not None for y in ast.walk(it.optional_vars) if isinstance(y, ast.Name)}
+    cur = [var]
+    changed = True
+    while changed:
+        changed = False
+        for nm, vals in binds.items():
+            if nm in cur or nm in other:
+                continue
+
+            def from_cursor(v, nm=nm):
+                if isinstance(v, ast.Name):
+                    return v.id in cur or v.id == nm
+                return isinstance(v, ast.Attribute) and v.attr == "parent" and isinstance(v.value, ast.Name) and (v.value.id in cur or v.value.id == nm)
+
+            if all(from_cursor(v) for v in vals) and any(isinstance(v, ast.Name) and v.id in cur for v in vals):
+                cur.append(nm)
+                changed = True
+    return cur
+
+
+def containers_of_kind(project, fn, var, kind, universe=_flat_names, ctx=None, _depth=0) -> set:
+    """Flat-container names function `fn` (a view) can choose for an entity of class `kind` held by `var` (or by the cursor
+    local that walks from `var` up its parents, when that is what the function classifies):
     * the string constants assigned / returned on the paths that are feasible for that kind (isinstance chains, guard
-      clauses with early returns, an `else` default, conditional expressions), and
+      clauses with early returns, an `else` default, conditional expressions, `<chosen> or <default>`), and
     * the value of the first matching entry of a class -> name table ({K: name} or ((K, name), ...)) that a loop scans
       with `isinstance(var, <key>)`."""
     F = Fx(fn)
+    cursors = entity_cursors(F, var)
+    if len(cursors) > 1:
+        tested = {F.xt(c.args[0]) for c in ast.walk(fn.node) if isinstance(c, ast.Call) and name_of(c.func) == "isinstance" and len(c.args) == 2}
+        subjects = [c for c in cursors if c in tested] or [var]
+    else:
+        subjects = [var]
+    out = set()
+    for subject in subjects:
+        out |= _containers_of(project, F, fn, subject, kind, universe, ctx, _depth)
+    return out
+
+
+def _delegate(project, fn, F, call, var):
+    """(callee, its parameter receiving `var`) for `f(var)` / `K.f(var)` / `self.f(var)` resolved in the package, else None."""
+    if not isinstance(call, ast.Call) or call.keywords or any(isinstance(a, ast.Starred) for a in call.args):
+        return None
+    pos = [i for i, a in enumerate(call.args) if F.xt(a) == var]
+    if len(pos) != 1:
+        return None
+    f = call.func
+    target = None
+    if isinstance(f, ast.Attribute) and isinstance(f.value, ast.Name) and fn.cls is not None and f.value.id in ("self", "cls", fn.self_name or ""):
+        m = fn.cls.lookup(f.attr)
+        target = m[2] if m and m[1] == "method" else None
+    elif isinstance(f, (ast.Name, ast.Attribute)):
+        r = project.resolve_expr(fn.module, f)
+        target = r[1] if r and r[0] == "func" else None
+    if target is None or target.node is fn.node:
+        return None
+    ps = target.params
+    if target.kind in ("method", "classmethod") and ps:
+        recv_is_class = isinstance(f, ast.Attribute) and isinstance(f.value, ast.Name) and f.value.id not in ("self", "cls", fn.self_name or "")
+        if not (target.kind == "method" and recv_is_class):
+            ps = ps[1:]
+    return (target, ps[pos[0]]) if pos[0] < len(ps) else None
+
+
+def _containers_of(project, F, fn, var, kind, universe, ctx=None, _depth=0) -> set:
     facts = KindFacts(project, kind)
     out = set()
+
+    def values(expr):
+        """container names an assigned / returned expression can stand for: constants, or what the function it delegates to chooses"""
+        vals = {s for s in _str_consts(F, expr, var, facts) if s in universe}
+        d = _delegate(project, fn, F, F.x(expr), var) if ctx is not None and _depth < 2 else None
+        if d is not None:
+            vals |= containers_of_kind(project, sem_view(ctx, d[0]), d[1], kind, universe, ctx, _depth + 1)
+        return vals
+
     def binds(m, name):
         if m.kind != "stmt" or not isinstance(m.ast, (ast.Assign, ast.AnnAssign, ast.AugAssign)):
             return False
@@ -312,15 +398,23 @@ def containers_of_kind(project, fn, var, kind, universe=_flat_names) -> set:
         roots = [it.context_expr for it in m.ast.items] if m.kind == "with" else [m.ast]
         return any(isinstance(y, ast.Name) and y.id == name and isinstance(y.ctx, ast.Load) for r in roots for y in ast.walk(r))
 
+    direct_results = set()  # names returned as they are (`return x`, `return x or <default>`)
+    for r in ast.walk(fn.node):
+        if isinstance(r, ast.Return) and r.value is not None:
+            vs = r.value.values if isinstance(r.value, ast.BoolOp) else [r.value]
+            direct_results |= {v.id for v in vs if isinstance(v, ast.Name)}
+
     for n in F.reach([F.g.entry], var, facts):
         if n.kind == "return" and n.ast is not None:
-            out |= {s for s in _str_consts(F, n.ast, var, facts) if s in universe}
+            out |= values(n.ast)
         elif n.kind == "stmt" and isinstance(n.ast, (ast.Assign, ast.AnnAssign)) and n.ast.value is not None:
-            vals = {s for s in _str_consts(F, n.ast.value, var, facts) if s in universe}
+            vals = values(n.ast.value)
             if not vals:
                 continue
             tgs = n.ast.targets if isinstance(n.ast, ast.Assign) else [n.ast.target]
             for t in tgs:
+                if _depth > 0 and not (isinstance(t, ast.Name) and t.id in direct_results):
+                    continue  # a function delegated to counts for what it RETURNS only
                 if not isinstance(t, ast.Name):
                     out |= vals
                     continue
@@ -355,10 +449,10 @@ def containers_of_kind(project, fn, var, kind, universe=_flat_names) -> set:
 
 # -------------------------------------------------------------------- helpers that were expanded into their callers
 def covered_helpers(ctx, fns) -> set:
-    """Of the private helpers in `fns`: those whose every call in the package was expanded into the caller's view (the
+    """Of the helpers in `fns`: those whose every call in the package was expanded into the caller's view (the
     code is then judged in the context of each caller, not as a function of its own)."""
     out = set()
-    fns = [f for f in fns if f.name.startswith("_") and not f.name.startswith("__")]
+    fns = [f for f in fns if not f.name.startswith("__")]
     if not fns:
         return out
     names = {f.name for f in fns}
@@ -373,10 +467,269 @@ def covered_helpers(ctx, fns) -> set:
             continue
         left = False
         for g in cs:
-            v = ctx.view(g)
+            v = sem_view(ctx, g)
             if any(isinstance(c, ast.Call) and name_of(c.func) == f.name for c in ast.walk(v.node)):
                 left = True
                 break
         if not left:
             out.add(f)
     return out
+
+
+# -------------------------------------------------------------------- extra normalisation: loops in disguise, table loops
+_CONSUMERS = ("list", "tuple", "set", "frozenset", "deque")
+
+
+class _Loopify(ast.NodeTransformer):
+    """Statements that are loops in disguise become `for` loops, so that what runs per element is visible to the rules:
+    `[f(x) for x in xs if c]` / `list(map(f, xs))` / `for _ in map(f, xs): pass` used as statements."""
+
+    def __init__(self):
+        self.changed = False
+        self.n = 0
+
+    def _for(self, target, it, body, at):
+        self.changed = True
+        return ast.copy_location(ast.For(target=target, iter=it, body=body, orelse=[], lineno=at.lineno), at)
+
+    def _map_call(self, e):
+        if isinstance(e, ast.Call) and isinstance(e.func, ast.Name) and e.func.id == "map" and len(e.args) == 2 and not e.keywords \
+                and isinstance(e.args[0], (ast.Name, ast.Attribute)):
+            return e.args
+        return None
+
+    def _from_map(self, m, at, body_after=()):
+        self.n += 1
+        x = f"_elt__m{self.n}"
+        call = ast.Expr(value=ast.Call(func=m[0], args=[ast.Name(id=x, ctx=ast.Load())], keywords=[]))
+        return self._for(ast.Name(id=x, ctx=ast.Store()), m[1], [ast.copy_location(call, at)] + list(body_after), at)
+
+    def visit_Expr(self, s):
+        v = s.value
+        if isinstance(v, (ast.ListComp, ast.SetComp, ast.GeneratorExp)) and len(v.generators) == 1 and not v.generators[0].is_async:
+            g = v.generators[0]
+            body = [ast.copy_location(ast.Expr(value=v.elt), s)]
+            for c in reversed(g.ifs):
+                body = [ast.copy_location(ast.If(test=c, body=body, orelse=[]), s)]
+            return self._for(g.target, g.iter, body, s)
+        if isinstance(v, ast.Call) and isinstance(v.func, (ast.Name, ast.Attribute)) and name_of(v.func) in _CONSUMERS and v.args:
+            inner = v.args[0]
+            m = self._map_call(inner)
+            if m is not None:
+                return self._from_map(m, s)
+            if isinstance(inner, (ast.ListComp, ast.GeneratorExp)):
+                return self.visit_Expr(ast.copy_location(ast.Expr(value=inner), s))
+        return s
+
+    def _first_match(self, v):
+        """(generator, default) of `next((elt for t in it if c), default)`"""
+        if isinstance(v, ast.Call) and isinstance(v.func, ast.Name) and v.func.id == "next" and len(v.args) == 2 and not v.keywords \
+                and isinstance(v.args[0], ast.GeneratorExp) and len(v.args[0].generators) == 1 and not v.args[0].generators[0].is_async:
+            return v.args[0], v.args[1]
+        return None
+
+    def _search(self, gen, hit, at):
+        g = gen.generators[0]
+        body = hit
+        for c in reversed(g.ifs):
+            body = [ast.copy_location(ast.If(test=c, body=body, orelse=[]), at)]
+        return g, body
+
+    def visit_Return(self, s):
+        fm = self._first_match(s.value)
+        if fm is None:
+            return s
+        gen, default = fm
+        g, body = self._search(gen, [ast.copy_location(ast.Return(value=gen.elt), s)], s)
+        return [self._for(g.target, g.iter, body, s), ast.copy_location(ast.Return(value=default), s)]
+
+    def visit_Assign(self, s):
+        fm = self._first_match(s.value)
+        if fm is None or len(s.targets) != 1 or not isinstance(s.targets[0], ast.Name):
+            return s
+        gen, default = fm
+        import copy
+
+        hit = [ast.copy_location(ast.Assign(targets=[copy.deepcopy(s.targets[0])], value=gen.elt, lineno=s.lineno), s), ast.copy_location(ast.Break(), s)]
+        g, body = self._search(gen, hit, s)
+        if len(g.ifs) != 1:
+            return s
+        lp = self._for(g.target, g.iter, body, s)
+        lp.orelse = [ast.copy_location(ast.Assign(targets=[copy.deepcopy(s.targets[0])], value=default, lineno=s.lineno), s)]
+        return lp
+
+    def visit_For(self, s):
+        self.generic_visit(s)
+        m = self._map_call(s.iter)
+        if m is not None and not s.orelse and not any(isinstance(y, (ast.Break, ast.Continue)) for b in s.body for y in ast.walk(b)) \
+                and not any(isinstance(y, ast.Name) and isinstance(s.target, ast.Name) and y.id == s.target.id for b in s.body for y in ast.walk(b)):
+            return self._from_map(m, s, s.body)
+        return s
+
+
+def _table_rows(project, fn, F, it, arity):
+    """rows of the literal table a loop scans: [[expr, ...]] (dict.items() -> [key, value]); None when it is not a literal."""
+    it = F.x(it)
+    items = False
+    if isinstance(it, ast.Call) and isinstance(it.func, ast.Attribute) and it.func.attr == "items" and not it.args:
+        it, items = it.func.value, True
+    if not isinstance(it, (ast.Dict, ast.Tuple, ast.List)):
+        it = _hoisted(project, fn, it)
+    if items:
+        if not isinstance(it, ast.Dict) or arity != 2 or any(k is None for k in it.keys):
+            return None
+        rows = [[k, v] for k, v in zip(it.keys, it.values)]
+    elif isinstance(it, (ast.Tuple, ast.List)):
+        if arity == 1:
+            rows = [[e] for e in it.elts]
+        else:
+            if not all(isinstance(e, (ast.Tuple, ast.List)) and len(e.elts) == arity for e in it.elts):
+                return None
+            rows = [list(e.elts) for e in it.elts]
+    else:
+        return None
+    if not rows or len(rows) > 12 or any(isinstance(y, ast.Starred) for r in rows for y in r):
+        return None
+    return rows
+
+
+def unroll_tables(project, fn):
+    """Loops over a LITERAL table (tuple / list of rows, {k: v}.items(); local, hoisted to module or class level) are
+    unrolled: one copy of the body per row with the loop variables bound to (and replaced by) the row's elements; the shape
+    `for k, v in T: if <test>: ...; break` becomes an if / elif chain (a for-else becomes the final else).  A dict of
+    callables or of container names scanned with isinstance then reads like the elif chain it replaced.  Returns (node, changed)."""
+    import copy
+
+    changed = [False]
+    lazy: dict = {}
+
+    def subst(stmts, mapping):
+        # constants stay behind their (bound) loop variable: which one is read is then decided per path
+        mapping = {k: v for k, v in mapping.items() if not isinstance(v, ast.Constant)}
+
+        class S(ast.NodeTransformer):
+            def visit_Name(self, n):
+                if isinstance(n.ctx, ast.Load) and n.id in mapping:
+                    return ast.copy_location(copy.deepcopy(mapping[n.id]), n)
+                return n
+
+        return [S().visit(copy.deepcopy(s)) for s in stmts]
+
+    def own_jumps(stmts, kinds):
+        """break / continue statements that belong to this loop (not to a nested one)"""
+        out = []
+
+        def walk(ss):
+            for s in ss:
+                if isinstance(s, kinds):
+                    out.append(s)
+                elif isinstance(s, (ast.For, ast.While, ast.FunctionDef, ast.AsyncFunctionDef, ast.ClassDef)):
+                    if isinstance(s, (ast.For, ast.While)):
+                        walk(s.orelse)
+                else:
+                    for fld in ("body", "orelse", "finalbody"):
+                        walk(getattr(s, fld, []) or [])
+                    for h in getattr(s, "handlers", []) or []:
+                        walk(h.body)
+
+        walk(stmts)
+        return out
+
+    def unroll(lp):
+        tgt = lp.target
+        names = [tgt] if isinstance(tgt, ast.Name) else (list(tgt.elts) if isinstance(tgt, (ast.Tuple, ast.List)) else None)
+        if not names or not all(isinstance(t, ast.Name) for t in names):
+            return None
+        if "F" not in lazy:
+            lazy["F"] = Fx(replace_node(fn, node))
+        rows = _table_rows(project, fn, lazy["F"], lp.iter, len(names))
+        if rows is None:
+            return None
+        ids = [t.id for t in names]
+        if any(isinstance(y, ast.Name) and y.id in ids and isinstance(y.ctx, (ast.Store, ast.Del)) for s in lp.body for y in ast.walk(s)):
+            return None
+        if own_jumps(lp.body, (ast.Continue,)):
+            return None
+        brk = own_jumps(lp.body, (ast.Break,))
+
+        def bind(row):
+            return [ast.copy_location(ast.Assign(targets=[ast.Name(id=i, ctx=ast.Store())], value=copy.deepcopy(e), lineno=lp.lineno), lp) for i, e in zip(ids, row)]
+
+        if not brk:
+            out = []
+            for row in rows:
+                out += bind(row) + subst(lp.body, dict(zip(ids, row)))
+            return out + list(lp.orelse)
+        # `if <test>: ...; break` as the only statement: an if / elif chain
+        if len(lp.body) == 1 and isinstance(lp.body[0], ast.If) and not lp.body[0].orelse and len(brk) == 1 and lp.body[0].body[-1] is brk[0]:
+            tail = list(lp.orelse)
+            for row in reversed(rows):
+                st = subst([lp.body[0]], dict(zip(ids, row)))[0]
+                st.body = st.body[:-1] or [ast.copy_location(ast.Pass(), lp)]
+                st.orelse = tail
+                tail = bind(row) + [st]
+            return tail
+        return None
+
+    def block(stmts):
+        out = []
+        for s in stmts:
+            for fld in ("body", "orelse", "finalbody"):
+                b = getattr(s, fld, None)
+                if isinstance(b, list) and b and isinstance(b[0], ast.stmt):
+                    setattr(s, fld, block(b))
+            for h in getattr(s, "handlers", []) or []:
+                h.body = block(h.body)
+            if isinstance(s, ast.For):
+                u = unroll(s)
+                if u is not None:
+                    changed[0] = True
+                    out += u
+                    continue
+            out.append(s)
+        return out
+
+    if not any(isinstance(y, ast.For) for y in ast.walk(fn.node)):
+        return fn.node, False
+    node = copy.deepcopy(fn.node)
+    node.body = block(node.body)
+    ast.fix_missing_locations(node)
+    return node, changed[0]
+
+
+def replace_node(fn, node):
+    from ..model import FuncInfo
+
+    return FuncInfo(name=fn.name, module=fn.module, node=node, cls=fn.cls, kind=fn.kind, prop=fn.prop)
+
+
+def sem_view(ctx, spec_or_fn):
+    """The view the C05 rules look at: loops in disguise made explicit, helpers expanded and constants substituted
+    (ctx.view), loops over literal tables unrolled, and the helpers those tables named expanded in turn."""
+    import copy
+
+    fn = ctx.p.func(spec_or_fn) if isinstance(spec_or_fn, str) else spec_or_fn
+    memo = ctx.cache.setdefault("c05.sem_view", {})
+    key = id(fn.node)
+    if key in memo:
+        return memo[key][-1]
+    keep = [fn]  # temporaries stay referenced: the normaliser memoises by id(node)
+    lf = _Loopify()
+    node = lf.visit(copy.deepcopy(fn.node))
+    src = fn
+    if lf.changed:
+        ast.fix_missing_locations(node)
+        src = replace_node(fn, node)
+        keep.append(src)
+    v = ctx.view(src)
+    keep.append(v)
+    for _ in range(2):
+        node, changed = unroll_tables(ctx.p, v)
+        if not changed:
+            break
+        u = replace_node(fn, node)
+        keep.append(u)
+        v = ctx.view(u)
+        keep.append(v)
+    memo[key] = keep
+    return v
